@@ -139,7 +139,7 @@ def rule_1(ctx):
 
 def rule_2(ctx):
     am = ctx.mod('ast_nodes')
-    ev = am.func('RangeNode.eval')
+    ev = ctx.func('ast_nodes', 'RangeNode.eval')
     loops = [n for n in walk_local(ev) if isinstance(n, ast.For)]
     cell_loops = [lp for lp in loops if any(isinstance(c, ast.Call) and isinstance(c.func, ast.Attribute)
                                             and c.func.attr == 'eval_cell' for c in ast.walk(lp))]
@@ -176,7 +176,18 @@ def rule_2(ctx):
     ctx.expect(appended and bool(inner), outer, 'every member cell is evaluated and collected',
                'the nested row/column loops no longer evaluate and collect each member address')
     # the loop domain is the registered rectangle
-    ctx.expect('cells' in {x.attr for x in ast.walk(outer.iter) if isinstance(x, ast.Attribute)}, outer,
+    def _origin_attrs(e, depth=0):
+        attrs = {x.attr for x in ast.walk(e) if isinstance(x, ast.Attribute)}
+        if depth < 3:
+            for nm in names_in(e):
+                for a in walk_local(ev):
+                    if isinstance(a, ast.Assign) and any(isinstance(t, ast.Name) and t.id == nm for t in a.targets):
+                        attrs |= _origin_attrs(a.value, depth + 1)
+        return attrs
+    oa = _origin_attrs(outer.iter)
+    if 'cells' not in oa and 'ranges' not in oa:
+        raise Unmodelled('RangeNode.eval: origin of the materialisation loop domain not recognised')
+    ctx.expect('cells' in oa, outer,
                'loop domain is XLRange.cells', 'the materialisation loop does not iterate the registered cell matrix')
     ctx.floor(3, 'exits + totality facts')
 
@@ -230,27 +241,31 @@ def rule_3(ctx):
     ctx.expect(ok, init, 'EvaluatorContext forwards ref to EvalContext', 'ref is not passed to EvalContext.__init__')
     am = ctx.mod('ast_nodes')
     binit = am.func('EvalContext.__init__')
-    sheet_assign = [n for n in walk_local(binit) if isinstance(n, ast.Assign) and any(
-        isinstance(t, ast.Attribute) and t.attr == 'sheet' for t in n.targets)]
-    ok = False
-    for n in sheet_assign:
-        v = n.value
-        if isinstance(v, ast.Subscript) and isinstance(v.value, ast.Call) and isinstance(v.value.func, ast.Attribute) \
-                and v.value.func.attr in ('split', 'partition', 'rpartition') and names_in(v.value.func.value) == {'ref'} \
-                and isinstance(v.slice, ast.Constant) and v.slice.value == 0 \
-                and v.value.args and isinstance(v.value.args[0], ast.Constant) and v.value.args[0].value == '!':
-            ok = True
-    ctx.expect(ok, binit, 'context sheet = sheet part of ref',
-               'EvalContext.sheet is not the sheet part (text before "!") of the evaluated cell\'s address')
-    fa = am.func('RangeNode.full_address')
-    fs = [n for n in walk_local(fa) if isinstance(n, ast.JoinedStr)]
-    ok = any(any(isinstance(v, ast.FormattedValue) and isinstance(v.value, ast.Attribute) and v.value.attr == 'sheet'
-                 and isinstance(v.value.value, ast.Name) and v.value.value.id == func_params(fa)[1] for v in f.values) for f in fs)
-    guard = any(isinstance(n, ast.Compare) and isinstance(n.ops[0], ast.NotIn) and isinstance(n.left, ast.Constant)
-                and n.left.value == '!' for n in walk_local(fa))
-    ctx.expect(ok and guard, fa, 'unqualified reference -> context.sheet',
-               'an unqualified reference is not completed with the sheet of the evaluating context')
-    ctx.floor(6, 'evaluate call sites + context construction chain')
+    pb = func_params(binit)
+    for ref, want in (('Sheet1!A1', 'Sheet1'), ('My Sheet!B2', 'My Sheet'), ('Data!$C$3', 'Data')):
+        me = Rec()
+        env = {pb[0]: me, 'ref': ref, 'namespace': None, 'seen': None}
+        for p_ in pb[1:]:
+            env.setdefault(p_, None)
+        env['ref'] = ref
+        it = Interp(ctx.a, am, env, scope_fn=binit)
+        out = it.run(binit.body)
+        got = me.f.get('sheet'), me.f.get('refsheet'), me.f.get('ref')
+        ctx.expect(got == (want, want, ref), binit, f'context for {ref!r}: sheet = refsheet = {want!r}',
+                   f'an evaluation context built for {ref!r} has sheet={got[0]!r}, refsheet={got[1]!r}, ref={got[2]!r}: unqualified references '
+                   f'in that cell would be resolved against the wrong sheet')
+    fa = ctx.func('ast_nodes', 'RangeNode.full_address')
+    pf = func_params(fa)
+    for text, sheet, want in (('A1', 'Ctx', 'Ctx!A1'), ('$B$2', 'Ctx', 'Ctx!B2'), ('Other!C3', 'Ctx', 'Other!C3'),
+                              ('Other!$C$3', 'Ctx', 'Other!C3'), ('A1:B2', 'My Sheet', 'My Sheet!A1:B2')):
+        it = Interp(ctx.a, am, {pf[0]: Rec(address=text, tvalue=text), pf[1]: Rec(sheet=sheet, refsheet='Ref')},
+                    inline_pkg=True, scope_fn=fa, self_class='pkg:ast_nodes:RangeNode')
+        out = it.run(fa.body)
+        got = out.value if out.end == 'return' else f'<{out.end}>'
+        ctx.expect(got == want, fa, f'full_address({text!r}) in a context on sheet {sheet!r}',
+                   f'the reference {text!r} evaluated in a cell of sheet {sheet!r} is looked up as {got!r}, expected {want!r} '
+                   '(unqualified references take the sheet of the evaluating context, qualified ones keep theirs, $ is dropped)')
+    ctx.floor(10, 'evaluate call sites + context construction chain + address witnesses')
     if n_sites < 1:
         ctx.errors.append('C03.3: no nested evaluate() call site found')
 
@@ -346,13 +361,24 @@ def rule_5(ctx):
     ctx.expect(bool(creates), br, 'blank member cells are created', 'member cells missing from the model are not created as blank cells')
     # reader side
     am = ctx.mod('ast_nodes')
-    ev = am.func('RangeNode.eval')
+    ev = ctx.func('ast_nodes', 'RangeNode.eval')
     reads = [n for n in walk_local(ev) if isinstance(n, ast.Subscript) and isinstance(n.value, ast.Attribute)
              and n.value.attr == 'ranges']
-    membership = [n for n in walk_local(ev) if isinstance(n, ast.Compare) and isinstance(n.ops[0], ast.In)
+    membership = [n for n in walk_local(ev) if isinstance(n, ast.Compare) and isinstance(n.ops[0], (ast.In, ast.NotIn))
                   and isinstance(n.comparators[0], ast.Attribute) and n.comparators[0].attr == 'ranges']
-    keys = {ast.dump(r.slice) for r in reads} | {ast.dump(c.left) for c in membership}
-    ctx.expect(len(keys) == 1 and bool(reads) and bool(membership), ev, 'range registry read with the tested key',
+    def _canon(e):
+        # a key held in a renamed parameter of an inlined helper is the same key
+        while isinstance(e, ast.Name):
+            binds = [a for a in walk_local(ev) if isinstance(a, ast.Assign) and any(isinstance(t, ast.Name) and t.id == e.id for t in a.targets)]
+            if len(binds) == 1 and isinstance(binds[0].value, ast.Name):
+                e = binds[0].value
+            else:
+                break
+        return ast.dump(e)
+    keys = {_canon(r.slice) for r in reads} | {_canon(c.left) for c in membership}
+    if not reads or not membership:
+        raise Unmodelled('RangeNode.eval: membership test / read of the range registry not found')
+    ctx.expect(len(keys) == 1, ev, 'range registry read with the tested key',
                'RangeNode.eval tests membership with one key and reads the registry with another')
     em = ctx.mod('evaluator')
     evl = em.func('Evaluator.evaluate')
@@ -368,42 +394,62 @@ def rule_5(ctx):
     ctx.floor(6, 'registry writer/reader facts')
 
 
+def _range_models():
+    import collections
+    import re as _re
+
+    def range_boundaries(text):
+        m = _re.fullmatch(r'\$?([A-Z]+)\$?(\d+)(?::\$?([A-Z]+)\$?(\d+))?', text)
+        if not m:
+            raise Unmodelled(f'range_boundaries model: {text!r}')
+
+        def col(c):
+            n = 0
+            for ch in c:
+                n = n * 26 + ord(ch) - 64
+            return n
+        c1, r1, c2, r2 = m.group(1), int(m.group(2)), m.group(3) or m.group(1), int(m.group(4) or m.group(2))
+        return (col(c1), r1, col(c2), r2)
+
+    def letter(n):
+        out = ''
+        while n:
+            n, r = divmod(n - 1, 26)
+            out = chr(65 + r) + out
+        return out
+    return {
+        'ext:openpyxl.utils.cell.range_boundaries': range_boundaries,
+        'ext:openpyxl.utils.cell.get_column_letter': letter,
+        'ext:collections.defaultdict': lambda f=None: collections.defaultdict(set),
+        'pkg:utils:resolve_sheet': lambda t: t.strip().strip("'"),
+    }
+
+
 def rule_6(ctx):
+    """Row-major, inclusive expansion decided on witness rectangles (openpyxl helpers replaced by models)."""
     um = ctx.mod('utils')
     rr = um.func('resolve_ranges')
-    ret = last_return(rr)
-    if ret is None or not isinstance(ret.value, ast.Tuple) or len(ret.value.elts) != 2 \
-            or not isinstance(ret.value.elts[1], ast.ListComp):
-        raise Unmodelled('resolve_ranges does not return (sheet, [[...] for ...])')
-    outer = ret.value.elts[1]
-    inner = outer.elt
-    ok_outer = isinstance(outer.generators[0].iter, ast.Call) and isinstance(outer.generators[0].iter.func, ast.Name) \
-        and outer.generators[0].iter.func.id == 'sorted' and not outer.generators[0].iter.keywords
-    ok_inner = isinstance(inner, ast.ListComp) and isinstance(inner.generators[0].iter, ast.Call) \
-        and isinstance(inner.generators[0].iter.func, ast.Name) and inner.generators[0].iter.func.id == 'sorted' \
-        and not inner.generators[0].iter.keywords
-    ctx.expect(ok_outer, rr, 'rows ascending', 'rows of a range are not produced in ascending order')
-    ctx.expect(ok_inner, rr, 'columns ascending within a row', 'columns within a row are not produced in ascending order')
-    # outer = rows, inner = columns (row-major): the inner loop variable feeds get_column_letter
-    if isinstance(inner, ast.ListComp):
-        col_var = names_in(inner.generators[0].target)
-        letter = [c for c in ast.walk(inner.elt) if isinstance(c, ast.Call) and ctx.res.resolve(c.func, um) ==
-                  'ext:openpyxl.utils.cell.get_column_letter']
-        ok = bool(letter) and names_in(letter[0].args[0]) <= col_var and bool(col_var)
-        ctx.expect(ok, rr, 'inner loop runs over columns', 'the inner (fastest) index is not the column: order is not row-major')
-        fv = [v for v in ast.walk(inner.elt) if isinstance(v, ast.FormattedValue)]
-        order = [ast.unparse(v.value) for v in fv]
-        row_var = [a for a in names_in(outer.generators[0].target)]
-        ok = len(order) >= 3 and any(r in order[-1] for r in row_var) and 'get_column_letter' in order[-2]
-        ctx.expect(ok, rr, 'address text = sheet!COLUMNrow', f'cell address assembled as {order}')
-    # inclusive bounds
-    rng = [c for c in flow.calls_in(rr) if isinstance(c.func, ast.Name) and c.func.id == 'range']
-    for c in rng:
-        ok = len(c.args) == 2 and isinstance(c.args[1], ast.BinOp) and isinstance(c.args[1].op, ast.Add) \
-            and isinstance(c.args[1].right, ast.Constant) and c.args[1].right.value == 1
-        ctx.expect(ok, c, f'inclusive bound `{ast.unparse(c)[:40]}`', 'range boundaries are not inclusive (max + 1)')
-    # RangeNode.eval keeps the order: rows appended in iteration order
-    ctx.floor(6, 'row-major facts')
+    p = func_params(rr)
+    cases = [
+        ('Sheet1!A1:B2', ('Sheet1', [['Sheet1!A1', 'Sheet1!B1'], ['Sheet1!A2', 'Sheet1!B2']])),
+        ("'My Sheet'!B2:D2", ('My Sheet', [['My Sheet!B2', 'My Sheet!C2', 'My Sheet!D2']])),
+        ('Data!C3:C5', ('Data', [['Data!C3'], ['Data!C4'], ['Data!C5']])),
+        ('Sheet1!$A$1:$B$2', ('Sheet1', [['Sheet1!A1', 'Sheet1!B1'], ['Sheet1!A2', 'Sheet1!B2']])),
+        ('Sheet1!Z9', ('Sheet1', [['Sheet1!Z9']])),
+        ('Sheet1!Y1:AB1', ('Sheet1', [['Sheet1!Y1', 'Sheet1!Z1', 'Sheet1!AA1', 'Sheet1!AB1']])),
+    ]
+    for text, want in cases:
+        env = {p[0]: text}
+        if len(p) > 1:
+            env[p[1]] = 'Sheet1'
+        it = Interp(ctx.a, um, env, call_models=_range_models(), scope_fn=rr)
+        out = it.run(rr.body)
+        got = out.value if out.end == 'return' else f'<{out.end} {out.value!r}>'
+        if isinstance(got, tuple):
+            got = (got[0], [list(r) for r in got[1]])
+        ctx.expect(got == want, rr, f'resolve_ranges({text!r})',
+                   f'resolve_ranges({text!r}) yields {got!r}; expected {want!r}: exactly rows x columns cells, row-major, bounds inclusive')
+    ctx.floor(6, 'witness rectangles')
 
 
 def rule_7(ctx):
